@@ -159,10 +159,10 @@ func (req *Request) Read(b *bufio.Reader) error {
 		return ErrNetworkError
 	}
 
+	req.ReceiveTime = time.Now()
 	if !strings.HasSuffix(s, "\r\n") {
 		return ErrInvalidCmd
 	}
-	req.ReceiveTime = time.Now()
 	parts := splitKeys(s)
 	if len(parts) < 1 {
 		return ErrInvalidCmd
